@@ -318,7 +318,7 @@ def expand_call_literal(cx, l, depth=0):
     vocabulary). Returns a list of literal lists, or None if f is not such a function."""
     from .pat import subst_params
     from .pg import norm_lit
-    if l[0] == "in" and l[2] == frozenset(["Some"]) and l[1][0] == "call" and l[1][1].rsplit("::", 1)[-1] in ("find", "rfind") and len(l[1][2]) == 2 and l[1][2][1][0] == "closure" and depth <= 1:
+    if l[0] == "in" and l[2] == frozenset(["Some"]) and l[1][0] == "call" and l[1][1].rsplit("::", 1)[-1] in ("find", "rfind", "position", "rposition") and len(l[1][2]) == 2 and l[1][2][1][0] == "closure" and depth <= 1:
         # `it.find(|x| p(x))` is Some(x): p holds of the element found, `(find(..) as Some).0`
         from .idioms import closure_returns
         from .an import subst, walk
@@ -326,6 +326,9 @@ def expand_call_literal(cx, l, depth=0):
         rows = closure_returns(cx.prog, clos[1]) or []
         caps = dict(clos[2])
         elem = ("vfield", l[1], "core::option::Option::Some", 0)
+        if l[1][1].rsplit("::", 1)[-1] in ("position", "rposition"):
+            # `it.position(|x| p(x))` is Some(k): p holds of the k-th element
+            elem = ("index", l[1][2][0], elem)
         out = []
         for r in rows:
             lits, v = r[0], r[1]
